@@ -24,7 +24,12 @@ BUDGET = {"quick": 85, "thorough": 800}
 
 @st.composite
 def cases(draw, npoints=24):
-    spec = draw(gens.problems(max_surveys=3, max_epochs=8, max_poly=3, n_rows=(1, 4), units=True, data_kinds=("list",)))
+    spec = draw(gens.problems(max_surveys=3, max_epochs=8, max_poly=3, n_rows=(1, 4), units=True, data_kinds=("list", "list", "dict", "tuple")))
+    if spec["data_kind"] == "single" and not spec.get("t_ref") and draw(st.booleans()):
+        # an explicit reference epoch, half of the time given on the UTC scale (astropy's default for Time(mjd))
+        tt = [x for sv_ in spec["surveys"] for x in sv_["t"]]
+        spec["t_ref"] = gens.rounded(min(tt) + (max(tt) - min(tt) + 1.0) * draw(gens.fl(-1.0, 2.0)), 12)
+        spec["t_ref_scale"] = draw(st.sampled_from(["tcb", "utc", "utc"]))
     pr = spec["prior"]
     pr["via"] = "default"
     if pr["K"]["kind"] == "fcm":
@@ -159,7 +164,9 @@ def body_factory(ctx):
             scale = np.abs(x_du) @ np.max(np.abs(M), axis=0) + 1e-300
             # 2e-5 |K|: the pymc model's own Kepler solver (ops.kepler) is only good to ~5e-7 in a narrow window
             # |M - pi| < 1e-5 at high eccentricity (measured; elsewhere 1e-13) - far below any data error
-            tol = 1e-8 * scale * (1 + 2 * math.pi * (prob.t.max() - prob.t_ref) / P_d * 1e-7 / (1 - e)) + 2e-5 * abs(x_du[0])
+            Mt = 2 * math.pi * (prob.t - prob.t_ref) / P_d - pt_["M0"]
+            near_pi = float(np.min(np.abs(np.mod(Mt, 2 * math.pi) - math.pi))) < 1e-3
+            tol = 1e-8 * scale * (1 + 2 * math.pi * (prob.t.max() - prob.t_ref) / P_d * 1e-7 / (1 - e)) + (2e-5 if near_pi else 1e-8) * abs(x_du[0])
             if model_rv.shape != want_rv.shape or np.max(np.abs(model_rv - want_rv)) > tol:
                 used_f5 = False
                 if "F5" in prob.applicable_flags(row):
@@ -215,7 +222,8 @@ def body_factory(ctx):
             or prob.n_offsets > 0 or prob.poly_trend >= 2 or pr["s"]["kind"] == "lognormal"
         ctx.note_case(spec, nondef, ["K:" + pr["K"]["kind"], "P:" + pr["P"]["kind"], "Punit:" + pr["P"]["unit"],
                                      "s:" + pr["s"]["kind"], "poly=%d" % prob.poly_trend, "noff=%d" % prob.n_offsets,
-                                     "init:n=%s" % ("1" if n_init == 1 else ">1"),
+                                     "init:n=%s" % ("1" if n_init == 1 else ">1"), "data:" + spec["data_kind"],
+                                     "t_ref:%s" % (spec.get("t_ref_scale", "tcb") if spec.get("t_ref") else "default"),
                                      "prior K unit %s data unit" % ("==" if str(units_prior["K"]) == str(og.unit(du)) else "!=")])
 
     return body
